@@ -21,6 +21,7 @@ def norm : Ty → Val → Val
     | .heap => .seq (sortVals Val.cmp (vs.map (norm t)))
     | _ => .seq (vs.map (norm t))
   | .box _ t, v => norm t v
+  | .wrap t, v => norm t v
   | .range t, .seq [a, b] => .seq [norm t a, norm t b]
   | .enum idxs ts, .variant idx v => .variant idx (normVariant idxs ts idx v)
   | _, v => v
@@ -57,6 +58,7 @@ def canon : Ty → Val → Bool
         | .bmap => strictSorted entryKey (vs.map (norm t))
         | _ => true)
   | .box _ t, v => canon t v
+  | .wrap t, v => canon t v
   | .range t, .seq [a, b] => canon t a && canon t b
   | .enum idxs ts, .variant idx v => canonVariant idxs ts idx v
   | _, _ => true
@@ -86,6 +88,7 @@ def layoutOk : Ty → Bool
       | .vec | .deque | .heap => sz ≤ maxPrealloc
       | _ => true)
   | .box _ t => layoutOk t
+  | .wrap t => layoutOk t
   | .range t => layoutOk t
   | .enum _ ts => layoutOkList ts
   | _ => true
@@ -105,6 +108,7 @@ def widthsOk : Ty → Bool
   | .garray _ t => widthsOk t
   | .seq _ _ t => widthsOk t
   | .box _ t => widthsOk t
+  | .wrap t => widthsOk t
   | .range t => widthsOk t
   | .enum idxs ts => idxs.all (· < 256) && widthsOkList ts
   | _ => true
@@ -127,6 +131,7 @@ def wireCanon : Ty → Bool
       | .vec | .deque | .list => true
       | _ => false)
   | .box _ t => wireCanon t
+  | .wrap t => wireCanon t
   | .range t => wireCanon t
   | .bitseq _ _ => false
   | .enum _ ts => wireCanonList ts
